@@ -387,26 +387,29 @@ Section Eq.
     | _ => None
     end.
 
-  (* the object branch of ItemsEqual: Object.Equals first, then a more specific Equals overwrites it *)
+  (* the object branch of ItemsEqual: the Equals of the more specific type, when the type name of [w] (activity,
+     actor) or of [it] (the four collection types) selects one and [it] converts to it; Object.Equals only when no
+     more specific comparison ran (the `compared` flag; fix 4653bee - the pinned tree ran Object.Equals first and
+     then overwrote its answer, which doubled the work at every level: every specific Equals starts with the
+     comparison of the object part) *)
   Definition object_branch (it w : item) : outcome bool :=
     let fs := fields_of it in
-    obind (object_equals fs w) (fun r0 =>
     if tl_contains tl_ActivityTypes (typ w) then
-      match as_kind KActivity it with Some afs => activity_equals afs w | None => Ok r0 end
+      match as_kind KActivity it with Some afs => activity_equals afs w | None => object_equals fs w end
     else if tl_contains tl_ActorTypes (typ w) then
-      match as_kind KActor it with Some afs => actor_equals afs w | None => Ok r0 end
+      match as_kind KActor it with Some afs => actor_equals afs w | None => object_equals fs w end
     else if is_collection_m it then
       (* four `if it.GetType() == ...` in a row; the names are distinct, at most one fires *)
       if bytes_eqb (typ it) (B "Collection") then
-        match as_kind KCollection it with Some cfs => collection_equals cfs w | None => Ok r0 end
+        match as_kind KCollection it with Some cfs => collection_equals cfs w | None => object_equals fs w end
       else if bytes_eqb (typ it) (B "OrderedCollection") then
-        match as_kind KOrdered it with Some cfs => ordered_equals cfs w | None => Ok r0 end
+        match as_kind KOrdered it with Some cfs => ordered_equals cfs w | None => object_equals fs w end
       else if bytes_eqb (typ it) (B "CollectionPage") then
-        match as_kind KCollectionPage it with Some cfs => page_equals cfs w | None => Ok r0 end
+        match as_kind KCollectionPage it with Some cfs => page_equals cfs w | None => object_equals fs w end
       else if bytes_eqb (typ it) (B "OrderedCollectionPage") then
-        match as_kind KOrderedPage it with Some cfs => opage_equals cfs w | None => Ok r0 end
-      else Ok r0
-    else Ok r0).
+        match as_kind KOrderedPage it with Some cfs => opage_equals cfs w | None => object_equals fs w end
+      else object_equals fs w
+    else object_equals fs w.
 
   Definition items_equal_body (it w : item) : outcome bool :=
     if is_nil it || is_nil w then Ok (is_nil w && is_nil it)
